@@ -12,9 +12,7 @@
           streams     `<channel|-> <pack|->`
           trackFormats `<stream|->`
           trackUIDs   `<trackIndex|-> <pack|-> <trackFormat|-> <channel|->`
-          oracle      per `allocate_packs` call `;`-separated: solutions `/`-separated, each a `,` list of
-                      indices into `_PackAllocator.packs` (`-` = no solution, `e` = a solution with no packs)
-   out: `items:<n>` | `adm:<kind>` | `internal:<kind>` | `no-oracle`, then ` mt=<0|1>`
+   out: `items:<n>` | `adm:<kind>` | `internal:<kind>`, then ` mt=<0|1>`
         (1 iff the multitree validation accepting the document implies the unique-path property; proved as
         `multitree_sound`, still evaluated);
         `bad-op` for a malformed or ill-scoped line. -/
@@ -100,13 +98,6 @@ def atu? : List String → Option TrackUID
   | [i, p, f, c] => do some { trackIndex := ← optNat i, pack := ← optNat p, trackFormat := ← optNat f, channel := ← optNat c }
   | _ => none
 
-def solution? (s : String) : Option (List Nat) :=
-  if s == "e" then some [] else (s.splitOn ",").mapM (fun t => t.toNat?)
-
-def oracleEntry? : List String → Option (List (List Nat))
-  | [s] => if s == "-" then some [] else (s.splitOn "/").mapM solution?
-  | _ => none
-
 def showAdm (k : AdmKind) : String := (reprStr k).replace "Earverif.Validate.AdmKind." ""
 def showInt (k : IntKind) : String := (reprStr k).replace "Earverif.Validate.IntKind." ""
 
@@ -114,11 +105,10 @@ def showRes : R Nat → String
   | .ok n => s!"items:{n}"
   | .error (.adm k) => "adm:" ++ showAdm k
   | .error (.internal k) => "internal:" ++ showInt k
-  | .error .noOracle => "no-oracle"
 
 def answer (line : String) : String :=
   match line.splitOn "|" with
-  | [hd, ps, cs, os, pks, chs, ss, tfs, atus, orc] =>
+  | [hd, ps, cs, os, pks, chs, ss, tfs, atus] =>
     let r : Option String := do
       let (v2, prog, sel) ← match words hd with
         | [v, p, s] => do some (← bool? v, ← optNat p, ← natList s)
@@ -133,15 +123,10 @@ def answer (line : String) : String :=
         streams := ← (elems ss).mapM stream?
         trackFormats := ← (elems tfs).mapM tf?
         trackUIDs := ← (elems atus).mapM atu? }
-      let oracle ← (elems orc).mapM oracleEntry?
       if !d.wellScoped then none
       if !d.avsOwned then none
       if !(allLt sel d.objects.length) then none
-      let npat := match patterns d with
-        | .ok pats => pats.length
-        | .error _ => 0
-      if !(oracle.all (fun sols => sols.all (fun sol => allLt sol npat))) then none
-      let res := selectItems d prog sel (fun i => oracle[i]?)
+      let res := selectItems d prog sel
       let mt := match validateMultitree d with
         | .ok _ => uniquePaths d
         | .error _ => true
